@@ -133,10 +133,19 @@ func ruleCloseOwner(c *core.Ctx, a *epAnchors, rule string) {
 				}
 				// closer call precedes close unless closer == nil
 				var closerCalls []ssa.Instruction
+				deferred := false
 				for _, call := range core.Calls(fn) {
 					if !call.Common().IsInvoke() && call.Common().StaticCallee() == nil && isFieldOf(call.Common().Value, a.hCloser) {
+						if _, plain := call.(*ssa.Call); !plain {
+							deferred = true // defer h.closer(err) / go h.closer(err): runs after the close below
+							continue
+						}
 						closerCalls = append(closerCalls, call.(ssa.Instruction))
 					}
+				}
+				if deferred {
+					c.Fail(rule, key, in.Pos(), "the close callback is deferred or started asynchronously: it runs after the queue has been closed (the documented order is callback, then close; client.Call relies on it to report the real disconnection error)")
+					continue
 				}
 				if len(closerCalls) == 0 {
 					c.Fail(rule, key, in.Pos(), "Handler.closeWith closes the queue without invoking the close callback")
@@ -216,6 +225,14 @@ func ruleCloseWithCallers(c *core.Ctx, a *epAnchors, lc *core.LockCache, rule st
 			if !core.Guarded(fn, in, core.Ne(isSlot, core.IsNilConst)) {
 				c.Fail(rule, key, call.Pos(), "Handler.closeWith is called on a slot not tested against nil")
 				continue
+			}
+			// the slot was read and tested in the critical section that closes it: no
+			// release of the mutex between reading the slot and closing the handler
+			if ld, ok := core.Canon(recv).(ssa.Instruction); ok && ld.Parent() == fn {
+				if unlockBetween(fn, ld, in, a.class) {
+					c.Fail(rule, key, call.Pos(), "handlersMutex is released and re-acquired between reading the handler slot and closing the handler: RemoveHandler / shutdown can close the same handler in that window (double close: the closer runs twice and close of closed channel panics)")
+					continue
+				}
 			}
 			// slot cleared on every path from the call to a return / unlock
 			clears := func(x ssa.Instruction) bool {
@@ -400,6 +417,10 @@ func ruleSendOwner(c *core.Ctx, a *epAnchors, lc *core.LockCache, rule string) {
 				}
 				if !core.Guarded(fn, in, core.Ne(isSlot, core.IsNilConst)) {
 					c.Fail(rule, key, in.Pos(), "send on the queue of a slot not tested against nil")
+					continue
+				}
+				if ld, ok := hroot.(ssa.Instruction); ok && ld.Parent() == fn && unlockBetween(fn, ld, in, a.class) {
+					c.Fail(rule, key, in.Pos(), "handlersMutex is released between reading the handler slot and sending on its queue: the queue can be closed in between (send on closed channel)")
 					continue
 				}
 				// matched by its own filter
@@ -728,4 +749,33 @@ func ruleCallbacks(c *core.Ctx, a *epAnchors, lc *core.LockCache, rule string) {
 			c.Pass(rule, key, f.Pos(), "does not reach an acquisition of handlersMutex and cannot block")
 		}
 	}
+}
+
+// unlockBetween reports whether some path from instruction a to instruction b
+// releases the mutex class on the way.
+func unlockBetween(fn *ssa.Function, a, b ssa.Instruction, class core.LockClass) bool {
+	isUnlock := func(x ssa.Instruction) bool {
+		call, ok := x.(*ssa.Call)
+		if !ok {
+			return false
+		}
+		op, ok := core.LockOpOf(call)
+		return ok && op.Class == class && (op.Kind == core.OpUnlock || op.Kind == core.OpRUnlock)
+	}
+	for _, blk := range fn.Blocks {
+		for _, x := range blk.Instrs {
+			if !isUnlock(x) {
+				continue
+			}
+			fromA := core.ReachFrom(core.After(a), func(y ssa.Instruction) bool { return y == b }, nil)
+			if !fromA.Has(x) {
+				continue
+			}
+			toB := core.ReachFrom(core.After(x), func(y ssa.Instruction) bool { return y == a }, nil)
+			if toB.Has(b) {
+				return true
+			}
+		}
+	}
+	return false
 }
